@@ -1,10 +1,12 @@
 import BobModel.Model.Share
+import BobModel.Generated.ConstsC15
 import BobModel.Util.Proto
 open Lean Proto Share
 
 /-
 Stateful line protocol (one session = one store that lives across schedules):
- {"op":"reset","ff":b}                         empty store, flush-before-unlock flag
+ {"op":"reset"}                                empty store; the variant of the code is the one extracted from the source
+                                                (Generated/ConstsC15.lean); "cfg":[ff,gcMissingOk,emptyOk,lostRace] overrides it
  {"op":"procs","progs":[prog,...]}             replace the process list (all at `start`), keep the store
  {"op":"step","p":i}                           -> {"blocked":b,"pc":name,"at":bid|null,"res":res|null,"pub":b}
  {"op":"snap","bids":[..],"wss":[..]}          -> store snapshot
@@ -16,8 +18,18 @@ The directory hash of the model run is the identity on content ids.
 -/
 
 structure Sess where
-  ff : Bool
+  cfg : Cfg
   s : St
+
+def srcCfg : Cfg :=
+  ⟨Consts.C15.flushBeforeUnlock, Consts.C15.gcMissingOk, Consts.C15.emptyOk, Consts.C15.lostRaceRecords⟩
+
+def cfgOf (j : Json) : Cfg :=
+  match j.getObjVal? "cfg" with
+  | .ok (.arr a) =>
+    let b := fun (i : Nat) => (a[i]?.getD Json.null) == Json.bool true
+    ⟨b 0, b 1, b 2, b 3⟩
+  | _ => srcCfg
 
 def progOf (j : Json) : Prog :=
   let quota := match j.getObjVal? "quota" with
@@ -97,13 +109,13 @@ def candOf (j : Json) : Cand :=
 
 def handle (se : Sess) (j : Json) : Sess × Json :=
   match getStr j "op" with
-  | "reset" => ({ ff := getBool j "ff", s := ⟨emptyStore, []⟩ }, Json.mkObj [("ok", true)])
+  | "reset" => ({ cfg := cfgOf j, s := ⟨emptyStore, []⟩ }, Json.mkObj [("ok", true)])
   | "procs" =>
     ({ se with s := ⟨se.s.g, mkProcs ((getArr j "progs").map progOf)⟩ }, Json.mkObj [("ok", true)])
   | "step" =>
     let p := getNat j "p"
     let bl := blocked se.s p
-    let s' := step id se.ff se.s p
+    let s' := step id se.cfg se.s p
     match s'.procs[p]? with
     | none => (se, err "no-such-process")
     | some pr =>
@@ -119,7 +131,7 @@ def handle (se : Sess) (j : Json) : Sess × Json :=
       | n + 1 =>
         match s.procs[p]? with
         | none => s
-        | some pr => if pr.pc.isDone || blocked s p then s else go n (step id se.ff s p)
+        | some pr => if pr.pc.isDone || blocked s p then s else go n (step id se.cfg s p)
     let s' := go (getNat j "max") se.s
     match s'.procs[p]? with
     | none => (se, err "no-such-process")
@@ -144,4 +156,4 @@ def handle (se : Sess) (j : Json) : Sess × Json :=
     (se, Json.mkObj [("plan", toJson (r.1.map (·.bid))), ("size", toJson r.2.1), ("terr", Json.bool r.2.2)])
   | _ => (se, err "bad-op")
 
-def main : IO Unit := run Sess { ff := false, s := ⟨emptyStore, []⟩ } handle
+def main : IO Unit := run Sess { cfg := srcCfg, s := ⟨emptyStore, []⟩ } handle
